@@ -282,6 +282,13 @@ Theorem C16_token_key_needs_member : forall verify ks raw k, token_key verify ks
 Proof. exact token_key_needs_member. Qed.
 Print Assumptions C16_token_key_needs_member.
 
+(* bytes of a token after the key material, the signature and the signed prefix have no influence *)
+Theorem C16_token_key_noninterference : forall verify ks raw raw', bytes_ok raw = true ->
+  agree_on (token_cover ks raw) raw raw' ->
+  token_key verify ks raw = token_key verify ks raw'.
+Proof. exact token_noninterference. Qed.
+Print Assumptions C16_token_key_noninterference.
+
 (* ---- non-vacuity: concrete inputs meet the hypotheses ---- *)
 
 Definition ex_n : Z := 2 ^ 255 + 12345.
@@ -327,3 +334,23 @@ Qed.
 (* BPM key: one entry with the usage bit; hash = identity *)
 Example ex_bpm : validate_bpm_key (fun _ x => zfirstn 32 x) [mkKmHash 1 c16_alg_sha256 (zfirstn 32 (zskipn 4 (k_data ex_key)))] ex_key = Ok tt.
 Proof. vm_compute. reflexivity. Qed.
+
+(* PSB: a 2048-bit key (modulus 2^2047+1, exponent 65537) in the key set, an uncompressed entry
+   with 16 signed bytes after the header, an 8-byte gap, the signature and a 3-byte tail;
+   the oracle accepts exactly raw[0,272) under raw[280,536) *)
+Definition ex_psb_id : bytes := map Z.of_nat (seq 1 16).
+Definition ex_psb_key : psbkey :=
+  mkPsbKey 1 ex_psb_id ex_psb_id 0 (zrepeat 0 16) 2048 2048
+           (le_enc 256 65537) (le_enc 256 (2 ^ 2047 + 1)).
+Definition ex_psb_hdr : bytes :=
+  zrepeat 0 20 ++ le_enc 4 16 ++ zrepeat 0 32 ++ ex_psb_id ++ le_enc 4 0 ++ zrepeat 0 8 ++ le_enc 4 0 ++
+  zrepeat 0 20 ++ le_enc 4 536 ++ zrepeat 0 144.
+Definition ex_psb_raw : bytes := ex_psb_hdr ++ zrepeat 7 16 ++ zrepeat 0 8 ++ zrepeat 9 256 ++ [1; 2; 3].
+Definition ex_psb_verify (pk : pubkey) (sc h : Z) (m s : bytes) : bool :=
+  bytes_eqb m (zfirstn 272 ex_psb_raw) && bytes_eqb s (zrepeat 9 256) && (h =? c16_alg_sha256).
+Example ex_psb : zlen ex_psb_hdr = 256 /\
+  psp_validate ex_psb_verify [ex_psb_key] ex_psb_raw = Ok ex_psb_key /\
+  psp_cover [ex_psb_key] ex_psb_raw = [(0, 208); (0, 272); (280, 536)] /\
+  psp_validate ex_psb_verify [ex_psb_key] (splice 275 [255] ex_psb_raw) = Ok ex_psb_key /\
+  psp_validate ex_psb_verify [ex_psb_key] (splice 100 [255] ex_psb_raw) = Err P_SIGCHECK.
+Proof. vm_compute. repeat split; reflexivity. Qed.
